@@ -387,6 +387,8 @@ func run(c *runner.Ctx) {
 		mb := m3
 		if !c.Thorough() && len(mb) > 5 {
 			mb = mb[:5]
+		} else if len(mb) > 12 {
+			mb = mb[:12] // thorough: 41 + 144 files, every ordered pair
 		}
 		for _, f := range mb {
 			for _, g := range mb {
